@@ -13,6 +13,11 @@ reachable through many handle types (by value, `&`, `&dyn ErasedCtxt` over the p
 `Option` / `AssertInternal` / `Box<dyn ErasedCtxt>` / a padding wrapper, `Box<dyn>`, `Arc<dyn>`,
 `Option`, and the erased ctxt of an `AmbientSlot`-held runtime) so that `ErasedFrame` stores its
 payload inline (8 and 16 bytes) *and* boxed (64-byte padded frames, erased-inside-erased frames).
+A third of the instances are `emit_traceparent::TraceparentCtxt<ThreadLocalCtxt>` (the other ctxt
+of the workspace with per-frame state of its own in a thread-local: a traceparent slot swapped
+with the thread's active traceparent on enter and handed back on exit), reached through the same
+handle types; a third of the frames carry `trace_id` / `span_id` properties (typed or as hex
+text) so the slot is populated.
 Futures run on a single-threaded executor written here: seeded poll order over 1–5 frame-wrapped
 futures which suspend through a scripted `YieldNow`, may be cancelled while suspended, and may
 migrate to another thread between polls. `panic!` is raised at seeded program points and caught
@@ -27,6 +32,17 @@ in destructors that run *during unwinding* between two frames, and at the very e
 everything must be empty through every handle — `with_current` is read through a rotating handle
 for every instance and compared with the model *as a first-wins map*. Events emitted through the
 instance's runtime at seeded points must carry exactly the model's map as ambient properties.
+
+For traceparent instances the model is extended by one traceparent stack per thread (shared by
+all traceparent instances, as the crate documents): a frame's traceparent is fixed when it is
+created (own ids: a new traceparent, child of the one active at creation if any; no own ids: a
+pushed / disabled / current frame carries the one active at creation, a root frame leaves the
+traceparent alone); the innermost active frame that set one wins, none -> none. At every program
+point the ids the ctxt contributes to `with_current` (when sampled) and `Traceparent::current()`
+are compared with it, so every kind of leave must restore it and every re-entry (second guard /
+`with`, next poll after a suspension, another thread) must show what the first entry showed.
+How a child traceparent is derived from its parent (same trace id and flags, disabled -> unsampled)
+is taken as implemented: that is C04 / C18's business.
 
 Unconstrained: out-of-stack-order exits (never generated); duplicate keys inside one frame
 (never generated); the order in which `with_current` enumerates properties.
@@ -510,9 +526,33 @@ fn create<'a>(inst: &'a Inst, h: H, kind: FK, props: &[(String, Val)]) -> AnyFra
     }
 }
 
+/// The model's image of the traceparent a frame carries in its slot.
+#[derive(Clone, Copy, Debug, PartialEq, Eq)]
+struct TpVal {
+    trace: TraceId,
+    span: SpanId,
+    parent: Option<SpanId>,
+    flags: u8,
+}
+
+impl TpVal {
+    /// What `TraceparentCtxt::with_current` contributes: the ids, if the traceparent is sampled.
+    fn overlay(&self, m: &mut Map) {
+        if self.flags & 1 == 1 {
+            m.insert("trace_id".into(), self.trace.to_string());
+            m.insert("span_id".into(), self.span.to_string());
+            if let Some(p) = self.parent {
+                m.insert("span_parent".into(), p.to_string());
+            }
+        }
+    }
+}
+
 struct FVar<'a> {
     frame: AnyFrame<'a>,
     map: AMap,
+    /// the traceparent this frame sets while entered (`None`: it leaves the traceparent alone)
+    slot: Option<TpVal>,
     inst: usize,
     kind: FK,
     // bookkeeping for the evidence only
@@ -533,6 +573,12 @@ impl FVar<'_> {
         }
         if std::thread::current().id() != self.created_on {
             bump("frame-entered-on-other-thread-than-created");
+        }
+        if self.slot.is_some() {
+            bump("traceparent-frame-entered");
+            if self.entries > 1 {
+                bump("traceparent-frame-re-entered");
+            }
         }
     }
 }
@@ -562,7 +608,8 @@ impl<'a> Env<'a> {
 
 #[derive(Debug, Hash)]
 enum Op {
-    Create { var: usize, inst: usize, h: H, kind: FK, props: OwnProps },
+    /// `ids`: (trace id, span id, as hex text instead of typed values) added to the frame's props
+    Create { var: usize, inst: usize, h: H, kind: FK, props: OwnProps, ids: Option<(u128, u64, bool)> },
     Guard { var: usize, body: Vec<Op> },
     With { var: usize, body: Vec<Op> },
     Call { var: usize, body: Vec<Op> },
@@ -629,6 +676,8 @@ struct InstDef {
     shared: bool,
     slot_kind: u8,
     place: Place,
+    /// the instance is `TraceparentCtxt<ThreadLocalCtxt>` instead of a plain `ThreadLocalCtxt`
+    tp: bool,
 }
 
 #[derive(Clone, Copy, PartialEq)]
@@ -703,7 +752,13 @@ impl<'r> Gen<'r> {
         let kind = *self.r.pick(&[FK::Push, FK::Push, FK::Push, FK::Push, FK::Root, FK::Root, FK::Disabled, FK::Disabled, FK::Current]);
         let props = if kind == FK::Current { Vec::new() } else { self.props() };
         self.budget -= 1;
-        (var, Op::Create { var, inst: self.r.usize(self.n_inst), h: *self.r.pick(&HANDLES), kind, props })
+        // both ids or neither, never equal to an earlier span id (fresh 64 random bits)
+        let ids = if kind != FK::Current && self.r.chance(1, 3) {
+            Some((((self.r.next() as u128) << 64) | self.r.next() as u128 | 1, self.r.next() | 1, self.r.bool()))
+        } else {
+            None
+        };
+        (var, Op::Create { var, inst: self.r.usize(self.n_inst), h: *self.r.pick(&HANDLES), kind, props, ids })
     }
 
     fn take_some(&mut self, sc: &mut Scope, max: usize, to: VS) -> Vec<usize> {
@@ -970,6 +1025,7 @@ fn generate(r: &mut Rng, min_ops: u64, max_ops: u64) -> Program {
             shared: shared_at == Some(i),
             slot_kind: r.below(3) as u8,
             place: *r.pick(&[Place::Worker, Place::OwnHelper, Place::OwnHelper, Place::Sibling, Place::Sibling, Place::ProgramThread]),
+            tp: r.chance(1, 3),
         })
         .collect();
     let fresh_thread = r.chance(1, 3);
@@ -997,6 +1053,8 @@ struct Viol {
 #[derive(Default)]
 struct Ts {
     stacks: Vec<Vec<(AMap, FK)>>,
+    /// the thread's traceparent stack (one per thread, shared by every traceparent instance)
+    tp: Vec<TpVal>,
     viols: Vec<Viol>,
     /// (name, count); a short linear scan is far cheaper under Miri than a map
     counters: Vec<(&'static str, u64)>,
@@ -1012,17 +1070,35 @@ impl Ts {
         }
     }
 
-    fn depths(&self) -> [usize; MAXI] {
-        let mut d = [0; MAXI];
+    fn depths(&self) -> [usize; MAXI + 1] {
+        let mut d = [0; MAXI + 1];
         for (i, s) in self.stacks.iter().enumerate() {
             d[i] = s.len();
         }
+        d[TPD] = self.tp.len();
         d
     }
 
-    fn truncate(&mut self, d: &[usize; MAXI]) {
+    fn truncate(&mut self, d: &[usize; MAXI + 1]) {
         for (i, s) in self.stacks.iter_mut().enumerate() {
             s.truncate(d[i]);
+        }
+        self.tp.truncate(d[TPD]);
+    }
+
+    /// What instance `inst` must show right now.
+    fn expected(&self, cx: &Cx, inst: usize) -> (AMap, &'static str) {
+        let (inner, kind) = match self.stacks[inst].last() {
+            Some((m, k)) => (m.clone(), k.name()),
+            None => (AMap::default(), "none"),
+        };
+        match (cx.insts[inst].is_tp(), self.tp.last()) {
+            (true, Some(tp)) if tp.flags & 1 == 1 => {
+                let mut m = (*inner).clone();
+                tp.overlay(&mut m);
+                (Arc::new(m), kind)
+            }
+            _ => (inner, kind),
         }
     }
 }
@@ -1046,6 +1122,7 @@ fn top(inst: usize) -> AMap {
 
 struct Cx {
     insts: Vec<Inst>,
+    any_tp: bool,
     n_vars: usize,
     seed: u64,
     index: u64,
@@ -1073,20 +1150,19 @@ fn diff_class(got: &Map, want: &Map) -> &'static str {
 
 fn compare(cx: &Cx, site: &'static str, inst: usize, via: &str, got: &Map) {
     ts(|t| {
-        let (want, kind) = match t.stacks[inst].last() {
-            Some((m, k)) => (m.clone(), k.name()),
-            None => (AMap::default(), "none"),
-        };
+        let (want, kind) = t.expected(cx, inst);
         if *got != *want {
             let class = diff_class(got, &want);
             let thread = t.thread;
+            let flavour = if cx.insts[inst].is_tp() { ":ctxt=traceparent" } else { "" };
             t.viols.push(Viol {
-                sig: format!("C03:{}:{}:innermost={}", site, class, kind),
+                sig: format!("C03:{}:{}:innermost={}{}", site, class, kind, flavour),
                 what: format!(
                     "at program point `{}` on thread `{}` instance {} (read through {}) shows {:?} but the innermost active frame ({}) has {:?}",
                     site, thread, inst, via, got, kind, want
                 ),
                 detail: json!({"site": site, "thread": thread, "instance": inst, "via": via, "got": got, "want": *want,
+                               "traceparent_instance": cx.insts[inst].is_tp(), "model_traceparent": format!("{:?}", t.tp.last()),
                                "shared_instance": cx.insts[inst].shared, "slot_kind": cx.insts[inst].slot_kind,
                                "instances_created_on": cx.insts.iter().map(|i| i.place.name()).collect::<Vec<_>>()}),
             });
@@ -1110,10 +1186,45 @@ fn check(cx: &Cx, site: &'static str) {
         let got = inst.read(h);
         compare(cx, site, i, h.name(), &got);
     }
+    compare_traceparent(cx, site);
     ts(|t| {
         t.count("program-points-checked", 1);
         t.count("with_current-reads", cx.insts.len() as u64);
     });
+}
+
+/// `Traceparent::current()` against the model: the innermost active frame that set a traceparent
+/// wins; none -> the empty traceparent.
+fn compare_traceparent(cx: &Cx, site: &'static str) {
+    if !cx.any_tp {
+        return;
+    }
+    let cur = Traceparent::current();
+    let got = (cur.trace_id().copied(), cur.span_id().copied(), cur.trace_flags().to_u8());
+    ts(|t| {
+        t.count("Traceparent::current-reads", 1);
+        // with nothing active `current()` is the empty traceparent: no ids (its flags are not constrained)
+        let want = match t.tp.last() {
+            Some(tp) => (Some(tp.trace), Some(tp.span), tp.flags),
+            None => (None, None, got.2),
+        };
+        if got != want {
+            let class = match (got.1.is_some(), want.1.is_some()) {
+                (true, false) => "leaked",
+                (false, true) => "lost",
+                _ => "wrong",
+            };
+            let thread = t.thread;
+            t.viols.push(Viol {
+                sig: format!("C03:{}:traceparent-current-{}:ctxt=traceparent", site, class),
+                what: format!(
+                    "at program point `{}` on thread `{}` Traceparent::current() is {} but the innermost active frame that set a traceparent has {:?}",
+                    site, thread, cur, t.tp.last()
+                ),
+                detail: json!({"site": site, "thread": thread, "got": cur.to_string(), "want": format!("{:?}", t.tp.last())}),
+            });
+        }
+    })
 }
 
 fn check_all_handles(cx: &Cx, site: &'static str) {
@@ -1123,6 +1234,7 @@ fn check_all_handles(cx: &Cx, site: &'static str) {
             compare(cx, site, i, h.name(), &got);
         }
     }
+    compare_traceparent(cx, site);
     ts(|t| {
         t.count("program-points-checked", 1);
         t.count("with_current-reads", (cx.insts.len() * HANDLES.len()) as u64);
@@ -1134,28 +1246,36 @@ fn check_all_handles(cx: &Cx, site: &'static str) {
 struct ModelScope<'c> {
     cx: &'c Cx,
     inst: usize,
-    depths: [usize; MAXI],
+    set_tp: bool,
+    depths: [usize; MAXI + 1],
     armed: bool,
 }
 
 impl<'c> ModelScope<'c> {
-    fn push(cx: &'c Cx, inst: usize, map: &AMap, kind: FK) -> Self {
+    fn push(cx: &'c Cx, inst: usize, map: &AMap, kind: FK, slot: Option<TpVal>) -> Self {
         let depths = ts(|t| {
             t.stacks[inst].push((map.clone(), kind));
+            if let Some(tp) = slot {
+                t.tp.push(tp);
+            }
             let d = t.depths();
-            t.max_depth = t.max_depth.max(d.iter().sum());
+            t.max_depth = t.max_depth.max(d[..MAXI].iter().sum());
             d
         });
-        ModelScope { cx, inst, depths, armed: true }
+        ModelScope { cx, inst, set_tp: slot.is_some(), depths, armed: true }
     }
 
     fn pop(mut self) {
         self.armed = false;
         let inst = self.inst;
         let want = self.depths;
+        let set_tp = self.set_tp;
         let ok = ts(|t| {
             let ok = t.depths() == want;
             t.stacks[inst].pop();
+            if set_tp {
+                t.tp.pop();
+            }
             ok
         });
         if !ok {
@@ -1172,8 +1292,12 @@ impl Drop for ModelScope<'_> {
             bump("checks-during-unwinding");
             check(self.cx, "during-unwinding");
             let inst = self.inst;
+            let set_tp = self.set_tp;
             ts(|t| {
                 t.stacks[inst].pop();
+                if set_tp {
+                    t.tp.pop();
+                }
             });
         }
     }
@@ -1230,23 +1354,77 @@ fn exec_block<'a>(cx: &'a Cx, ops: &'a [Op], env: &mut Env<'a>, start: &'static 
 
 fn exec_op<'a>(cx: &'a Cx, op: &'a Op, env: &mut Env<'a>) -> &'static str {
     match op {
-        Op::Create { var, inst, h, kind, props } => {
+        Op::Create { var, inst, h, kind, props, ids } => {
             let visible = top(*inst);
+            let is_tp = cx.insts[*inst].is_tp();
+            // the props handed to the real frame: the frame's own, plus the ids (typed or hex text)
+            let with_ids: OwnProps;
+            let real_props: &[(String, Val)] = match ids {
+                Some((t, sp, hex)) => {
+                    let (t, sp) = (TraceId::from_u128(*t).unwrap(), SpanId::from_u64(*sp).unwrap());
+                    let mut p = props.clone();
+                    if *hex {
+                        p.push(("trace_id".into(), Val::S(t.to_string())));
+                        p.push(("span_id".into(), Val::S(sp.to_string())));
+                    } else {
+                        p.push(("trace_id".into(), Val::T(t)));
+                        p.push(("span_id".into(), Val::P(sp)));
+                    }
+                    bump(if *hex { "create:with-trace-ids-as-hex-text" } else { "create:with-typed-trace-ids" });
+                    with_ids = p;
+                    &with_ids
+                }
+                None => props,
+            };
+            // a plain ctxt treats the ids as ordinary properties; the traceparent ctxt moves them
+            // into the frame's traceparent slot and keeps them out of the wrapped ctxt
+            let model_props: &[(String, Val)] = if is_tp { props } else { real_props };
             let map = match kind {
                 FK::Push => {
                     let mut m = (*visible).clone();
-                    for (k, v) in props {
+                    for (k, v) in model_props {
                         m.insert(k.clone(), v.text());
                     }
                     Arc::new(m)
                 }
-                FK::Root => Arc::new(props.iter().map(|(k, v)| (k.clone(), v.text())).collect()),
+                FK::Root => Arc::new(model_props.iter().map(|(k, v)| (k.clone(), v.text())).collect()),
                 FK::Disabled | FK::Current => visible.clone(),
             };
-            let frame = create(&cx.insts[*inst], *h, *kind, props);
+            let slot = if is_tp {
+                let active = ts(|t| t.tp.last().copied());
+                // `AssertInternal` does not forward `open_disabled` (it falls back to
+                // `open_push(Empty)`), so a disabled frame made through it never sees the ids
+                let ids = if *h == H::DynAssert && *kind == FK::Disabled { &None } else { ids };
+                match ids {
+                    Some((t, sp, _)) => {
+                        let span = SpanId::from_u64(*sp).unwrap();
+                        let keep = if *kind == FK::Disabled { 0 } else { 0xff };
+                        // how a child relates to its parent is C04 / C18's business and is taken
+                        // as implemented: same trace and flags, parent = the active span
+                        Some(match active {
+                            Some(a) => TpVal { trace: a.trace, span, parent: Some(a.span), flags: a.flags & keep },
+                            None => TpVal { trace: TraceId::from_u128(*t).unwrap(), span, parent: None, flags: 1 & keep },
+                        })
+                    }
+                    // no ids of its own: a pushed / disabled / current frame carries what was
+                    // active when it was created, a root frame leaves the traceparent alone
+                    None if *kind == FK::Root => None,
+                    None => active,
+                }
+            } else {
+                None
+            };
+            let frame = create(&cx.insts[*inst], *h, *kind, real_props);
+            if is_tp {
+                bump("create:on-traceparent-instance");
+                if slot.is_some() {
+                    bump("create:frame-that-sets-a-traceparent");
+                }
+            }
             env.vars[*var] = Some(FVar {
                 frame,
                 map,
+                slot,
                 inst: *inst,
                 kind: *kind,
                 created_under: visible,
@@ -1270,7 +1448,7 @@ fn exec_op<'a>(cx: &'a Cx, op: &'a Op, env: &mut Env<'a>) -> &'static str {
             fv.note_entry();
             each_frame!(&mut fv.frame, f => {
                 let mut g = f.enter();
-                let m = ModelScope::push(cx, fv.inst, &fv.map, fv.kind);
+                let m = ModelScope::push(cx, fv.inst, &fv.map, fv.kind, fv.slot);
                 let seen = g.with(|cur| to_map(cur));
                 compare(cx, "guard.with", fv.inst, "EnterGuard::with", &seen);
                 exec_block(cx, body, env, "inside-guard");
@@ -1287,10 +1465,10 @@ fn exec_op<'a>(cx: &'a Cx, op: &'a Op, env: &mut Env<'a>) -> &'static str {
                 return "after-skipped-op";
             };
             fv.note_entry();
-            let (inst, kind) = (fv.inst, fv.kind);
+            let (inst, kind, slot) = (fv.inst, fv.kind, fv.slot);
             let map = fv.map.clone();
             each_frame!(&mut fv.frame, f => f.with(|cur| {
-                let m = ModelScope::push(cx, inst, &map, kind);
+                let m = ModelScope::push(cx, inst, &map, kind, slot);
                 let seen = to_map(cur);
                 compare(cx, "frame.with", inst, "Frame::with", &seen);
                 exec_block(cx, body, env, "inside-with");
@@ -1306,9 +1484,9 @@ fn exec_op<'a>(cx: &'a Cx, op: &'a Op, env: &mut Env<'a>) -> &'static str {
                 return "after-skipped-op";
             };
             fv.note_entry();
-            let FVar { frame, map, inst, kind, .. } = fv;
+            let FVar { frame, map, inst, kind, slot, .. } = fv;
             each_frame!(frame, f => f.call(|| {
-                let m = ModelScope::push(cx, inst, &map, kind);
+                let m = ModelScope::push(cx, inst, &map, kind, slot);
                 exec_block(cx, body, env, "inside-call");
                 m.pop();
             }));
@@ -1321,10 +1499,10 @@ fn exec_op<'a>(cx: &'a Cx, op: &'a Op, env: &mut Env<'a>) -> &'static str {
                 return "after-skipped-op";
             };
             fv.note_entry();
-            let FVar { frame, map, inst, kind, .. } = fv;
+            let FVar { frame, map, inst, kind, slot, .. } = fv;
             each_frame!(frame, f => {
                 let func = f.in_fn(|| {
-                    let m = ModelScope::push(cx, inst, &map, kind);
+                    let m = ModelScope::push(cx, inst, &map, kind, slot);
                     exec_block(cx, body, env, "inside-fn");
                     m.pop();
                 });
@@ -1343,10 +1521,10 @@ fn exec_op<'a>(cx: &'a Cx, op: &'a Op, env: &mut Env<'a>) -> &'static str {
             for v in moved {
                 child_env.vars[*v] = env.vars[*v].take();
             }
-            let FVar { frame, map, inst, kind, .. } = fv;
+            let FVar { frame, map, inst, kind, slot, .. } = fv;
             let back = each_frame!(frame, f => {
                 let func = f.in_fn(move || {
-                    let m = ModelScope::push(cx, inst, &map, kind);
+                    let m = ModelScope::push(cx, inst, &map, kind, slot);
                     exec_block(cx, body, &mut child_env, "inside-fn-on-thread");
                     m.pop();
                     child_env
@@ -1475,6 +1653,7 @@ struct Scoped<'c, F> {
     inst: usize,
     map: AMap,
     kind: FK,
+    slot: Option<TpVal>,
     fut: F,
 }
 
@@ -1485,7 +1664,7 @@ impl<'c, F: Future<Output = ()>> Future for Scoped<'c, F> {
         // SAFETY: `fut` is structurally pinned: it is never moved out of `self` and `Scoped`
         // has no `Drop` impl or `Unpin` impl of its own.
         let this = unsafe { self.get_unchecked_mut() };
-        let m = ModelScope::push(this.cx, this.inst, &this.map, this.kind);
+        let m = ModelScope::push(this.cx, this.inst, &this.map, this.kind, this.slot);
         check(this.cx, "poll-entered");
         let fut = unsafe { Pin::new_unchecked(&mut this.fut) };
         let r = fut.poll(c);
@@ -1512,10 +1691,10 @@ where
                         bump("ops-skipped");
                         continue;
                     };
-                    let FVar { frame, map, inst, kind, .. } = fv;
+                    let FVar { frame, map, inst, kind, slot, .. } = fv;
                     bump("enter:in_future-nested");
                     each_frame!(frame, f => {
-                        f.in_future(Scoped { cx, inst, map, kind, fut: run_items(cx, body, env) }).await
+                        f.in_future(Scoped { cx, inst, map, kind, slot, fut: run_items(cx, body, env) }).await
                     });
                     check(cx, "after-nested-future");
                 }
@@ -1533,13 +1712,14 @@ fn build_task<'a>(cx: &'a Cx, def: &'a TaskDef, env: &mut Env<'a>) -> Option<Tas
     if !def.moved.is_empty() {
         bump("frames-moved-into-task");
     }
-    let FVar { frame, map, inst, kind, .. } = fv;
+    let FVar { frame, map, inst, kind, slot, .. } = fv;
     let body = &def.body;
     let inner = Scoped {
         cx,
         inst,
         map,
         kind,
+        slot,
         fut: async move {
             let mut tenv = tenv;
             run_items(cx, body, &mut tenv).await;
@@ -1651,6 +1831,7 @@ fn run_program(r: &mut Report, seed: u64, index: u64, (min_ops, max_ops): (u64, 
     // the rest (`Place::ProgramThread`) is made by the thread that runs the program
     let make_and_run = move || {
         let cx = Cx {
+            any_tp: prog_ref.insts.iter().any(|d| d.tp),
             insts: prog_ref.insts.iter().zip(made).map(|(d, m)| Inst::new(m.unwrap_or_else(|| make_ctxt(d.shared)), *d)).collect(),
             n_vars: prog_ref.n_vars,
             seed,
@@ -1689,6 +1870,10 @@ fn run_program(r: &mut Report, seed: u64, index: u64, (min_ops, max_ops): (u64, 
     r.eval();
     for d in &prog.insts {
         r.observe(d.place.name(), 1);
+        r.observe(if d.tp { "instances:TraceparentCtxt<ThreadLocalCtxt>" } else { "instances:ThreadLocalCtxt" }, 1);
+    }
+    if prog.insts.iter().any(|d| d.tp) {
+        r.observe("programs-with-a-traceparent-instance", 1);
     }
     if prog.fresh_thread {
         r.observe("programs-run-on-a-fresh-thread", 1);
